@@ -502,7 +502,7 @@ func (o *ObjectSchema) Validate(data any) error {
 }
 
 func (o *ObjectSchema) applySubObjectDefaultValues(propertyID string, property *PropertySchema, rawData map[string]any) {
-	o.expandSubObjectDefaultValues(propertyID, property, rawData, nil)
+	o.expandSubObjectDefaultValues(propertyID, property, rawData, o.fieldCache, nil)
 }
 
 // expandSubObjectDefaultValues does the work of applySubObjectDefaultValues. expanding holds the referenced
@@ -512,10 +512,19 @@ func (o *ObjectSchema) expandSubObjectDefaultValues(
 	propertyID string,
 	property *PropertySchema,
 	rawData map[string]any,
+	fields map[string]reflect.StructField,
 	expanding []Object,
 ) {
 	reflectedType := property.ReflectedType()
 	if reflectedType.Kind() == reflect.Pointer {
+		return
+	}
+	if field, isMapped := fields[propertyID]; isMapped &&
+		(field.Type.Kind() == reflect.Pointer || field.Type.Kind() == reflect.Interface) {
+		// The property is mapped to a pointer (or interface) field - fields is the field table of the struct-mapped
+		// object that owns it: like a sub-object declared with a pointer type it stays nil when it is not given.
+		// A struct type can contain itself only this way, and filling such a field in from the defaults at
+		// every level would never end.
 		return
 	}
 	var subObject Object
@@ -555,8 +564,12 @@ func (o *ObjectSchema) expandSubObjectDefaultValues(
 			data[k] = v
 		}
 	}
+	var subFields map[string]reflect.StructField
+	if mappedSubObject, isObjectSchema := subObject.(*ObjectSchema); isObjectSchema {
+		subFields = mappedSubObject.fieldCache
+	}
 	for subPropertyID, subProperty := range subObject.Properties() {
-		o.expandSubObjectDefaultValues(subPropertyID, subProperty, data, expanding)
+		o.expandSubObjectDefaultValues(subPropertyID, subProperty, data, subFields, expanding)
 	}
 	if len(data) != 0 {
 		rawData[propertyID] = data
